@@ -159,7 +159,8 @@ let () =
                fail (name ^ "-malformed-status") "record parser rejected (status %d) but the legacy parser returned %d" st st_i;
              let check_spec expected what =
                (* expected: full line the specification demands *)
-               if parse_ok && expected <> l then begin
+               let strip_live s = match String.rindex_opt s ' ' with Some i when starts (String.sub s (i + 1) (String.length s - i - 1)) "live=" -> String.sub s 0 i | _ -> s in
+               if parse_ok && strip_live expected <> strip_live l then begin
                  if malformed then fail (name ^ "-malformed-status") "record parser accepted the message but status is %d: %s" st_i l
                  else if kv (split_on ' ' expected) "st" <> kv toks "st" then
                    fail (name ^ "-nodata-status") "spec=[%s] impl=[%s]" expected l
@@ -198,7 +199,10 @@ let () =
                  | Some c when c < 0 -> ()       (* a negative count is outside the property *)
                  | _ ->
                    let o = spec_addr_reply fam rec_ (h = 1) (t = 1) (match nopt with None -> None | Some c -> Some (z_of_int c)) in
-                   check_spec (render_addr name h t nin o) "records"
+                   check_spec (render_addr name h t nin o) "records";
+                   (* property: TTLs identical to the record API's (unsigned) values *)
+                   if List.exists (fun (_, ttl) -> int_of_z ttl < 0) o.ao_written && h = 1 && nin = "4096" then
+                     fail "ttl-sign" "%s: a record TTL >= 2^31 is handed out as a negative int: %s" name l
                end else begin
                  if kv toks "touched" <> "0" then fail (name ^ "-records") "array written on a rejected message: %s" l
                end
@@ -240,7 +244,9 @@ let () =
                 | "srv" -> both parse_srv_reply spec_srv r_srv
                 | "naptr" -> both parse_naptr_reply spec_naptr r_naptr
                 | "caa" -> both parse_caa_reply spec_caa r_caa
-                | "uri" -> both parse_uri_reply spec_uri r_uri
+                | "uri" -> both parse_uri_reply spec_uri r_uri;
+                  if parse_ok && List.exists (fun (u : uri_reply) -> int_of_z u.uri_ttl < 0) (snd (spec_uri rec_)) then
+                    fail "ttl-sign" "uri: a record TTL >= 2^31 is handed out as a negative int: %s" l
                 | "txt" -> both parse_txt_reply (spec_txt false) r_txt
                 | "txtx" -> both parse_txt_reply_ext (spec_txt true) r_txtx
                 | _ -> diff "unknown parser line %s" l)
